@@ -176,12 +176,54 @@ def selfcheck_fixture(rep):
             os.unlink(out)
 
 
+def run_whole_token(rep, facts):
+    """R13.4: the token is never taken apart.  The slot (`_sg`) is released by dropping the Token; a function that moves single
+    fields out of a Token (e.g. a non-async `run` whose `async move` block captures only the fields it names) drops the rest --
+    the permit -- when that function returns, while the connection it was issued for is still being served."""
+    rep.rule("R13.4", "no field is moved out of a Token anywhere in the crate (a Token changes hands whole): the permit lives exactly as long as the "
+                      "value that was handed to the connection task")
+
+    def ops_of(x, out):
+        if isinstance(x, dict):
+            if isinstance(x.get("move"), dict):
+                out.append(x["move"])
+            for v in x.values():
+                ops_of(v, out)
+        elif isinstance(x, list):
+            for v in x:
+                ops_of(v, out)
+    n_bodies = 0
+    bad = {}
+    for b in facts.bodies:
+        touches = False
+        for bi, blk in enumerate(b.blocks):
+            out = []
+            ops_of(blk["st"], out)
+            ops_of(blk["t"], out)
+            for p in out:
+                for el in p.get("p", []):
+                    if F.norm(el.get("of", "")) == TOKEN and "f" in el:
+                        bad.setdefault(b.npath, []).append((el.get("n", el["f"]), blk["t"].get("sp") or {}))
+        if any(F.norm((l.get("ty") or {}).get("adt", "") if isinstance(l.get("ty"), dict) else "") == TOKEN for l in b.locals):
+            n_bodies += 1
+    for npath, items in sorted(bad.items()):
+        if "_sg" in {str(i[0]) for i in items}:
+            continue        # the permit itself changes hands: R13.3 follows it
+        rep.violation("R13.4", "token-taken-apart[%s]" % npath, "field(s) %s are moved out of a Token: the remaining fields (the permit among them) are dropped "
+                      "when this function returns, not when the connection ends" % sorted({str(i[0]) for i in items}),
+                      "%s:%s" % (items[0][1].get("f"), items[0][1].get("l")) if items[0][1] else None)
+    if not any("_sg" not in {str(i[0]) for i in items} for items in bad.values()):
+        rep.ok("R13.4", "token-whole", "no partial move out of a Token in %d bodies that handle one" % n_bodies)
+    rep.floor("R13.4", "bodies with a Token-typed local", n_bodies, 2)
+
+
 def main(rep, tier):
     import check
     f = F.load(("async", "http"))
     rep.configs.append({"features": "async,http", "profile": "debug", "bodies": len(f.bodies)})
     check.guard(rep, "R13", run, f)
     check.guard(rep, "R13.3", selfcheck_fixture)
+    check.guard(rep, "R13.4", run_whole_token, f)
     import check as _c
     _c.witnesses(rep, "C13", f)
     return rep.finish(
